@@ -27,7 +27,12 @@ int g_k, g_o, v_e, v_o, g_cnt;
 #define KEY(x) ((x) >> 4)
 #define P_RANGE(k) (0 <= keys[k] && keys[k] < 4096)
 void w_sort(int* keys, int end, int start, int type)
+__CPROVER_requires(0 <= end && end <= NMAX)
 __CPROVER_requires(__CPROVER_is_fresh(keys, NMAX * sizeof(int)) && 0 <= start && start <= LAST && LAST < NMAX && (type == 0 || type == 1))
+#ifdef FIXED_RANGE
+/* the whole array, concrete bounds (keeps the symbolic execution of the `while(end - start >= SOPLEX_SHELLSORTMAX)` loop and of the recursion finite) */
+__CPROVER_requires(start == 0 && LAST == NMAX - 1)
+#endif
 __CPROVER_requires(P_RANGE(0) && P_RANGE(1) && P_RANGE(2) && P_RANGE(3))
 #if NMAX > 4
 __CPROVER_requires(P_RANGE(4))
